@@ -408,12 +408,16 @@ class POXCore (EventMixin):
       vwarn("Support for Python 3 is experimental.")
 
     self.starting_up = False
+
+    # Hold a deferral of our own while GoingUp is being handled, so that
+    # a handler which takes a deferral and releases it right away doesn't
+    # complete stage 2 early (and we then do it a second time below).
+    deferral = self._get_go_up_deferral()
     self.raiseEvent(GoingUpEvent())
 
     self._add_signal_handlers()
 
-    if not self._go_up_deferrals:
-      self._goUp_stage2()
+    deferral()
 
   def _get_go_up_deferral (self):
     """
